@@ -24,11 +24,11 @@ def jobs(tier, seed):
             if op in (4, 5, 10, 11) and (nr % 2 == 0):
                 continue       # extrapolated smoothers need a finest-level grid (nr odd)
             dirbc = (op + nr) % 2
-            J.append(dict(entry='h_region', args=[nr, nt, nC, dirbc, op], label=f'{NAMES[op]} {nr}x{nt} nC={nC} dirbc={dirbc}', cls=NAMES[op], reach=['parallel-code-reached', 'done'],
-                          omp_race=True, threads=2, eager=True, feas_timeout=10, fork_int_selects=False, int_ranges=False, expect='any', witness=False, no_obligations_ok=True, max_paths=400, cap_quick=120))
+            J.append(dict(entry='h_region', args=[nr, nt, nC, dirbc, op], label=f'{NAMES[op]} {nr}x{nt} nC={nC} dirbc={dirbc}', cls=NAMES[op], reach=['parallel-code-reached'],
+                          omp_race=True, threads=2, eager=True, feas_timeout=10, fork_int_selects=False, int_ranges=False, expect='any', concretize=True, witness=False, no_obligations_ok=True, max_paths=400, cap_quick=120))
     GN = ['prolongation', 'restriction', 'extrapolated prolongation', 'extrapolated restriction', 'injection', 'FMG interpolation', 'rhs build', 'extrapolated residual', 'exact error']
     for op in range(9):
-        J.append(dict(entry='h_gmg_region', args=[op], label=f'{GN[op]} 9x8/5x4', cls=GN[op], reach=['parallel-code-reached', 'done'], omp_race=True, threads=2, eager=True, feas_timeout=10, int_ranges=False, expect='any',
+        J.append(dict(entry='h_gmg_region', args=[op], label=f'{GN[op]} 9x8/5x4', cls=GN[op], reach=['parallel-code-reached'], omp_race=True, threads=2, eager=True, feas_timeout=10, int_ranges=False, expect='any', concretize=True,
                       libm_small=True, witness=False, no_obligations_ok=True, max_paths=400, cap_quick=120))
     return J
 
